@@ -349,7 +349,7 @@ def analyse_unit(unit, res, report, unit_path):
             out["compile_error"] = d["text"]
             continue
         its = [w[1] for w in where if w[0] == "item"]
-        clause = re.sub(r"\s*//\s*\[C[^\]]*\]", "", lines[d["primary"] - 1]).strip()[:100] if d["primary"] and d["primary"] <= len(lines) else ""
+        clause = re.sub(r"\s*//\s*\[C[^\]]*\].*$", "", lines[d["primary"] - 1]).strip()[:100] if d["primary"] and d["primary"] <= len(lines) else ""
         if its:
             it = its[0]
             # prefer the item containing the primary span
@@ -358,8 +358,11 @@ def analyse_unit(unit, res, report, unit_path):
                     it = w[1]
             fprops = it["props"]
             mt = re.search(r"//\s*\[(C\d+(?:\s*,\s*C\d+)*)\]", lines[d["primary"] - 1]) if d["primary"] and d["primary"] <= len(lines) else None
-            if mt and kind != "pre":
-                # clause-level tag in the side-car: the failing clause carries only these properties
+            at_call_site = bool(d["primary"]) and it.get("out_lines") and it["out_lines"][0] <= d["primary"] <= it["out_lines"][1]
+            if mt and (kind != "pre" or at_call_site):
+                # clause-level tag in the side-car: the failing clause carries only these properties. (For a failed precondition the tag
+                # counts only when the reported line is the CALL SITE inside this function — a hint of the side-car — not the callee's
+                # `requires` line, whose tag would be the callee's.)
                 fprops = [x.strip() for x in mt.group(1).split(",")]
             out["failures"].append({"unit": unit, "item": it["selector"], "file": it["file"], "props": fprops, "kind": kind,
                                     "clause": clause, "obligation": "%s.%s.%s[%s]" % (unit, fn_name_of_item(it), kind, clause),
